@@ -40,6 +40,11 @@ def leave(text):
     raise SystemExit(text)
 def helper(v):
     return v * 2
+SAMPLED = []
+def sample(period):
+    """A sampling condition: true on every period-th call (a counter, random.random() < p, 'the first N per key' are of this kind)."""
+    SAMPLED.append(len(SAMPLED))
+    return (len(SAMPLED) - 1) % period == 0
 class Unprintable(Exception):
     def __str__(self):
         raise RuntimeError('no text for you')
@@ -144,6 +149,10 @@ def cases(tier, seed):
             for xs in itertools.product((-1, 1), repeat=ln):
                 for fc in ('1', '2'):
                     out.append({'k': 'cond', 'cond': ci, 'xs': list(xs), 'fc': fc})
+    # a condition with a memory (a sampler): asked once per hit of its tracepoint, and what it says goes for all the actions of the tracepoint
+    for period in (1, 2, 3):
+        for hits in (3, 6):
+            out.append({'k': 'sampler', 'period': period, 'hits': hits})
     for ei in range(len(EXPRS)):
         for src in ('watch', 'log', 'metric', 'label'):
             out.append({'k': 'expr', 'e': ei, 'src': src})
@@ -182,7 +191,57 @@ def ref_eval(expr, frame):
         return ('err', e)
 
 
+def case_sampler(ctx, desc):
+    from deep.api.tracepoint.trigger import build_trigger
+    from deep.api.tracepoint.tracepoint_config import MetricDefinition
+    ns, path = prog()
+    del ns['SAMPLED'][:]
+    period, nhits = desc['period'], desc['hits']
+    agent = rig.Agent()
+    args = {'condition': 'sample(%d)' % period, 'fire_count': '-1', 'fire_period': '0', 'log_msg': 'hit {x}', 'span': 'line'}
+    agent.install([build_trigger('tp-snap', 'c10prog.py', LINE, args, ['acc'], [MetricDefinition('m', 'counter')])])
+
+    asked_at = {}
+
+    def after(ev, frame):
+        ev.nsnap = len(agent.snapshots)
+        ev.njournal = len(agent.journal.events)
+        asked_at[ev.idx] = len(ns['SAMPLED'])
+    fw = Forwarder({path}, agent.handler, lambda ev, frame: None, after)
+    with rig.VirtualClock():
+        run = fw.call(ns['target'], [1] * nhits)
+    ctx.case()
+    ctx.nt(('sampler', period, nhits))
+    if run.escaped or run.exc is not None:
+        ctx.violation('C10/agent-raised-into-host/' + type((run.escaped[0][1] if run.escaped else run.exc)).__name__, f'handler raised {run.escaped[:1]} / program ended with {run.exc!r}', desc)
+        return
+    hits = [e for e in run.events if e.kind == 'line' and e.line == LINE]
+    prev = (0, 0, 0)
+    rows = []
+    for i, h in enumerate(hits):
+        evs = agent.journal.events[prev[1]:h.njournal]
+        kinds = sorted({e[0] for e in evs if e[0] in ('log', 'metric', 'span_open')})
+        rows.append((asked_at[h.idx] - prev[2], h.nsnap - prev[0], kinds))
+        prev = (h.nsnap, h.njournal, asked_at[h.idx])
+    ctx.outcome(('sampler', period, tuple((r[0], r[1], len(r[2])) for r in rows)))
+    asked = [r[0] for r in rows]
+    if any(a != 1 for a in asked):
+        ctx.violation('C10/condition-asked-more-than-once-per-hit', f'one tracepoint (snapshot, log, metric, span) with the sampling condition sample({period}), {nhits} hits: '
+                      f'the condition was evaluated {asked} times per hit; effects per hit (snapshots, kinds) {[(r[1], r[2]) for r in rows]}', desc)
+        return
+    for i, (a, nsnap, kinds) in enumerate(rows):
+        want = i % period == 0
+        full = nsnap == 1 and kinds == ['log', 'metric', 'span_open']
+        none = nsnap == 0 and not kinds
+        if (want and not full) or (not want and not none):
+            ctx.violation('C10/hit-accepted-and-rejected', f'sampling condition sample({period}): hit #{i} is {"accepted" if want else "rejected"} by the condition, '
+                          f'effects: {nsnap} snapshots, {kinds}', desc)
+            return
+
+
 def run_case(ctx, desc):
+    if desc['k'] == 'sampler':
+        return case_sampler(ctx, desc)
     if desc['k'] == 'cond':
         return case_cond(ctx, desc)
     if desc['k'] == 'expr':
